@@ -178,7 +178,8 @@ def rows_written(run):
         k = 4 * rng.randint(1, 30) - 1          # k+1 divisible by 4 so that DL_POLY accepts it too
         combos.append((s, k))
     combos.append(("0.001", 43))
-    pair_body = "[Pair]\nA-B : as.buck 1000.0 0.3 10.0\n"
+    # two interactions per model: EVERY block of the table must have the rows (a grid object consumed by the first block would starve the others)
+    pair_body = "[Pair]\nA-B : as.buck 1000.0 0.3 10.0\nB-B : as.buck 500.0 0.25 0.0\n"
     eam_body = "[EAM-Embed]\nAl : as.sqrt 1.0\n[EAM-Density]\nAl : as.bornmayer 10.0 0.5\n[Pair]\nAl-Al : as.buck 1000.0 0.3 10.0\n"
     fs_body = "[EAM-Embed]\nAl : as.sqrt 1.0\n[EAM-Density]\nAl->Al : as.bornmayer 10.0 0.5\n[Pair]\nAl-Al : as.buck 1000.0 0.3 10.0\n"
     for (s, k) in combos:
@@ -187,8 +188,10 @@ def rows_written(run):
         s2 = rng.choice(STEPS[8:])              # the density grid gets its own step and row count
         k2 = rng.choice([kk for kk in range(3, 60) if kk != k])
         cs2 = impl.decimal_str(Fr(s2) * k2)
-        for target in ["LAMMPS", "DL_POLY", "GULP", "setfl", "setfl_fs", "DL_POLY_EAM", "DL_POLY_EAM_fs", "eam_adp"]:
-            eam = target not in ("LAMMPS", "DL_POLY", "GULP")
+        for target in ["LAMMPS", "DL_POLY", "GULP", "excel", "setfl", "setfl_fs", "DL_POLY_EAM", "DL_POLY_EAM_fs", "eam_adp", "excel_eam", "excel_eam_fs"]:
+            eam = target not in ("LAMMPS", "DL_POLY", "GULP", "excel")
+            if target.startswith("excel") and want > 200 and not (s == "0.001" and k == 43):
+                continue                        # (workbooks are slow to build; large row counts are covered by the text targets)
             tsec = "[Tabulation]\ntarget : %s\ndr : %s\ncutoff : %s\n" % (target, s, cs)
             if eam:
                 tsec += "drho : %s\ncutoff_rho : %s\n" % (s2, cs2)
@@ -196,7 +199,7 @@ def rows_written(run):
             if target == "eam_adp":
                 body += "[EAM-ADP-Dipole]\nAl-Al : as.zero\n[EAM-ADP-Quadrupole]\nAl-Al : as.zero\n"
             try:
-                out = impl.config_tabulate(tsec + body)
+                out = impl.config_tabulate(tsec + body, binary=target.startswith("excel"))
             except Exception as e:
                 from atsim.potentials.config._common import ConfigurationException
                 if target == "DL_POLY" and want == 4 and isinstance(e, ConfigurationException):
@@ -206,25 +209,46 @@ def rows_written(run):
             run.case(key=("rows", target, s, k), kind="rows/" + target)
             run.traces += 1
             if target == "LAMMPS":
-                b = lammps_blocks_raw(out)[0]
-                counts = dict(rows=len(b[4]) + 1, header=b[1] + 1, last=float(b[4][-1][1]))
+                bs = lammps_blocks_raw(out)
+                counts = dict(blocks=len(bs), rows=min(len(b[4]) for b in bs) + 1, rows_max=max(len(b[4]) for b in bs) + 1, header=bs[0][1] + 1, last=float(bs[-1][4][-1][1]))
             elif target == "DL_POLY":
                 delpot, cutpot, ngrid, blocks = dlpoly_raw(out)
-                counts = dict(rows=sum(len(r) for r in blocks[0][2]) // 2, header=ngrid, last=float(cutpot))
+                per = [sum(len(r) for r in blk[2]) // 2 for blk in blocks]
+                counts = dict(blocks=len(blocks), rows=min(per), rows_max=max(per), header=ngrid, last=float(cutpot))
             elif target == "GULP":
-                lines = out.split("\n")
-                body_lines = [l for l in lines[2:] if l.strip()]
-                counts = dict(rows=len(body_lines), header=want, last=float(body_lines[-1].split()[1]))
+                per, lastsep, hdr = [], None, False
+                for l in out.split("\n"):
+                    if l.startswith("spline"):
+                        per.append(0)
+                        hdr = True
+                    elif hdr:
+                        hdr = False          # 'A B cutoff' line of the block
+                    elif l.strip() and per:
+                        per[-1] += 1
+                        lastsep = float(l.split()[1])
+                counts = dict(blocks=len(per), rows=min(per), rows_max=max(per), header=want, last=lastsep if lastsep is not None else float("nan"))
+            elif target.startswith("excel"):
+                sheets = dict((sh["name"], sh) for sh in eamlib.excel_tokens_raw(out))
+                pr = sheets["Pair"]["rows"]
+                counts = dict(blocks=2 if not eam else 1, rows=len(pr), rows_max=len(pr), header=want, last=float(pr[-1][0]) if pr else float("nan"))
+                if eam:
+                    er, dr_ = sheets["EAM-Embed"]["rows"], sheets["EAM-Density"]["rows"]
+                    counts.update(rho_rows=len(er), rho_header=k2 + 1, rho_last=float(er[-1][0]) if er else float("nan"))
+                    if len(dr_) != want or abs(float(dr_[-1][0]) - float(cs)) > 1e-6 * float(cs):
+                        counts["rows"] = len(dr_)
+                        counts["last"] = float(dr_[-1][0]) if dr_ else float("nan")
             elif target in ("setfl", "setfl_fs", "eam_adp"):
                 t = eamlib.setfl_tokens(out, fs=target == "setfl_fs", adp=target == "eam_adp")
-                counts = dict(rows=len(t["elements"][0]["dens"][0]), header=t["nr"], rho_rows=len(t["elements"][0]["embed"]), rho_header=t["nrho"],
+                counts = dict(blocks=1, rows=len(t["elements"][0]["dens"][0]), rows_max=len(t["elements"][0]["dens"][0]), header=t["nr"], rho_rows=len(t["elements"][0]["embed"]), rho_header=t["nrho"],
                               last=float((t["nr"] - 1) * Fr(t["dr"])), rho_last=float((t["nrho"] - 1) * Fr(t["drho"])))
             else:
                 t = eamlib.tabeam_tokens(out)
                 pb = [b for b in t["blocks"] if b["kw"] == "pair"][0]
                 eb = [b for b in t["blocks"] if b["kw"] == "embe"][0]
-                counts = dict(rows=sum(len(r) for r in pb["rows"]), header=pb["n"], rho_rows=sum(len(r) for r in eb["rows"]), rho_header=eb["n"], last=float(Fr(pb["hi"])), rho_last=float(Fr(eb["hi"])))
-            bad = [kk for kk in ("rows", "header") if kk in counts and counts[kk] != want]
+                counts = dict(blocks=1, rows=sum(len(r) for r in pb["rows"]), rows_max=sum(len(r) for r in pb["rows"]), header=pb["n"], rho_rows=sum(len(r) for r in eb["rows"]), rho_header=eb["n"], last=float(Fr(pb["hi"])), rho_last=float(Fr(eb["hi"])))
+            if counts["blocks"] != (2 if not eam else 1):
+                counts["rows"] = -1
+            bad = [kk for kk in ("rows", "rows_max", "header") if kk in counts and counts[kk] != want]
             bad += [kk for kk in ("rho_rows", "rho_header") if kk in counts and counts[kk] != k2 + 1]
             if "rho_last" in counts and abs(counts["rho_last"] - float(cs2)) > 1e-6 * float(cs2):
                 bad.append("rho_last")
